@@ -65,11 +65,11 @@ def run_property(prop: str, tier: str, only_rule=None, repo=REPO,
         k = match_known(v, known)
         if k is not None:
             kid = k.get("id", "?")
-            if (kid, v.fn, v.key) not in seen_known:
-                seen_known.add((kid, v.fn, v.key))
+            if kid not in seen_known:
+                seen_known.add(kid)
                 n_known += 1
-                say(f"KNOWN-FINDING: property={prop} {kid} {v.rule} {v.fn} "
-                    f"`{v.construct}` :: {k.get('what', v.reason)}")
+                say(f"KNOWN-FINDING: property={prop} {kid} {v.rule} {v.fn} :: {k.get('what', v.reason)} "
+                    f"[{k.get('witness', '')}]")
         else:
             real.append(v)
     status = "violated" if real else "holds"
